@@ -31,6 +31,9 @@ def run(ctx):
     ctx.rule("R2", "O-step shape and placement around velocity Verlet on every path")
     ctx.rule("R3", "limits: damp->infinity gives NVE, T=0 only removes energy, 0<c1<=1")
     ctx.rule("R4", "degrees of freedom: Langevin ignores constraints, XL-BOMD ignores them iff damped, set_dof precedes the draw")
+    ctx.rule("R5", "a resumed thermostatted run keeps its damping time: every engine type that accepts `damp` is rebuilt with the recorded value (shared with C10-R9)")
+    from .c10 import _r9_ctor_kwargs
+    _r9_ctor_kwargs(ctx, repo, rid="R5")
 
     ini = md.func("Molecular_Dynamics_Langevin.initialize")
     env = md_env(sym)
@@ -43,7 +46,13 @@ def run(ctx):
             if t in ("self.langevin_c1", "self.langevin_c2"):
                 c_stmts[t] = st
     if set(c_stmts) != {"self.langevin_c1", "self.langevin_c2"}:
-        raise AnalysisError("Langevin.initialize: langevin_c1/c2 definitions not found")
+        missing = sorted({"self.langevin_c1", "self.langevin_c2"} - set(c_stmts))
+        if len(missing) == 2:
+            raise AnalysisError("Langevin.initialize: langevin_c1/c2 definitions not found")
+        ctx.fail("R1", md, ini, "Molecular_Dynamics_Langevin.initialize", f"{missing[0]} not recomputed",
+                 f"{missing[0]} is not recomputed in initialize() while the other thermostat coefficient is: after the time step or the damping time of the driver object is changed "
+                 f"the two coefficients belong to different settings and the fluctuation-dissipation relation fails (stationary temperature off by the ratio of the two settings)")
+        return
     blk = ini.body
     # find the block containing c1 definition
     par = md.parents[c_stmts["self.langevin_c1"]]
